@@ -33,6 +33,21 @@ type Vec struct {
 	Remotes []string `json:"remotes"`
 	Before  State    `json:"before"`
 	After   State    `json:"after"`
+	FailAt  int      `json:"failat"` // via cacheflaky: which removal of a ref fails in the first attempt
+}
+
+// flakyRepo: the FailAt-th RemoveRef fails once, without removing anything.
+type flakyRepo struct {
+	repository.ClockedRepo
+	n, failAt *int
+}
+
+func (f flakyRepo) RemoveRef(ref string) error {
+	*f.n++
+	if *f.n == *f.failAt {
+		return fmt.Errorf("injected failure removing %s", ref)
+	}
+	return f.ClockedRepo.RemoveRef(ref)
 }
 
 var gitbug string
@@ -191,8 +206,13 @@ func one(v Vec, kind string, cli bool) string {
 		if why != "" {
 			return why
 		}
-	case "cache":
-		c, err := hx.OpenCache(repo)
+	case "cache", "cacheflaky":
+		var through repository.ClockedRepo = repo
+		nRemoved, failAt := 0, v.FailAt
+		if v.Via == "cacheflaky" {
+			through = flakyRepo{repo, &nRemoved, &failAt}
+		}
+		c, err := hx.OpenCache(through)
 		if err != nil {
 			return "cache open: " + err.Error()
 		}
@@ -224,12 +244,22 @@ func one(v Vec, kind string, cli bool) string {
 			if err != nil {
 				return "cache reopen after CLI: " + err.Error()
 			}
-		} else if kind == "bug" {
-			if err := c.Bugs().Remove(T.id.String()); err != nil {
-				return "cache removal failed: " + err.Error()
-			}
 		} else {
-			if err := c.Identities().Remove(T.id.String()); err != nil {
+			remove := func() error {
+				if kind == "bug" {
+					return c.Bugs().Remove(T.id.String())
+				}
+				return c.Identities().Remove(T.id.String())
+			}
+			err := remove()
+			if v.Via == "cacheflaky" && nRemoved >= failAt {
+				// the removal of one ref failed on the way: the call has to say so, and repeating it finishes the job
+				if err == nil {
+					return fmt.Sprintf("the removal of ref #%d failed and the cache removal reported no error", failAt)
+				}
+				err = remove()
+			}
+			if err != nil {
 				return "cache removal failed: " + err.Error()
 			}
 		}
